@@ -174,6 +174,7 @@ bytes   start   end   description      range / format
 #include <stdio.h>
 #include <errno.h>
 #include <string.h>
+#include <limits.h>
 #include <stdlib.h>
 #include <fcntl.h>
 #include <assert.h>
@@ -3184,6 +3185,20 @@ void ADFI_read_disk_pointer(
 }
 /*----------------------------------------------------------------------------------*/
 /* file ADFI_evaluate_datatype.c */
+/* *total += size * count, unless an int cannot hold the result (returns 1) */
+
+static int ADFI_add_type_bytes(
+		int *total,
+		const int size,
+		const int count )
+{
+cglong_t sum = (cglong_t)*total + (cglong_t)size * (cglong_t)count ;
+
+if( sum > INT_MAX )
+   return 1 ;
+*total = (int)sum ;
+return 0 ;
+}
 /***********************************************************************
 ADFI evaluate datatype:
 
@@ -3387,8 +3402,11 @@ while( data_type_string[ str_position ] != '\0' ) {
 	/** Look for arrays '[', commas ',', of end-of-string '\0' **/
    switch( data_type_string[ str_position ] ) {
       case '\0' :
-	 *file_bytes = *file_bytes + size_file ;
-	 *machine_bytes = *machine_bytes + size_machine ;
+	 if( ADFI_add_type_bytes( file_bytes, size_file, 1 ) ||
+	     ADFI_add_type_bytes( machine_bytes, size_machine, 1 ) ) {
+	    *error_return = INVALID_DATA_TYPE ;
+	    return ;
+	    } /* end if */
          tokenized_data_type[ current_token++ ].length = 1 ;
 	 break ;
 
@@ -3398,6 +3416,10 @@ while( data_type_string[ str_position ] != '\0' ) {
 	 str_position += 1 ;
 	 while( (data_type_string[ str_position ] >= '0') &&
 		(data_type_string[ str_position ] <= '9') ) {
+	    if( array_size > (INT_MAX - 9) / 10 ) {
+	       *error_return = INVALID_DATA_TYPE ;
+	       return ;
+	       } /* end if */
 	    array_size = array_size * 10 +
 			(data_type_string[ str_position ] - '0') ;
 	    str_position += 1 ;
@@ -3411,16 +3433,22 @@ while( data_type_string[ str_position ] != '\0' ) {
 	 if( data_type_string[ str_position ] == ',' ) {
 	    str_position += 1 ;
 	    } /* end if */
-	 *file_bytes = *file_bytes + size_file * array_size ;
-	 *machine_bytes = *machine_bytes + size_machine * array_size ;
+	 if( ADFI_add_type_bytes( file_bytes, size_file, array_size ) ||
+	     ADFI_add_type_bytes( machine_bytes, size_machine, array_size ) ) {
+	    *error_return = INVALID_DATA_TYPE ;
+	    return ;
+	    } /* end if */
          tokenized_data_type[ current_token++ ].length = array_size ;
 	 }
 	 break ;
 
       case ',' :
 	 str_position += 1 ;
-	 *file_bytes = *file_bytes + size_file ;
-	 *machine_bytes = *machine_bytes + size_machine ;
+	 if( ADFI_add_type_bytes( file_bytes, size_file, 1 ) ||
+	     ADFI_add_type_bytes( machine_bytes, size_machine, 1 ) ) {
+	    *error_return = INVALID_DATA_TYPE ;
+	    return ;
+	    } /* end if */
 	 break ;
 
       default :	/** Error condition **/
